@@ -5,6 +5,7 @@ EXTENDS IprUnifyTrace
 TIsolation == /\ Ev.op = "isolation"
               /\ Ev.shared_nonconstant = 0          \* nothing but the constants in common
               /\ Ev.constants_differ = 0            \* and the constants are the same nodes for every Lexicon
+              /\ Ev.differs_from_running_alone = 0  \* every thread got and printed what the same program gets and prints alone
               /\ UNCHANGED uvars
 ThrNext == /\ l <= Len(T)
            /\ (TConsts \/ TReset \/ TObserved \/ (Ev.op # "isolation" /\ TCall) \/ TIsolation)
